@@ -75,6 +75,30 @@ def op_task(u, tt, pp, op, ar, ext, tight=False, prop="C11", timeout=900, bounde
              group="%s %s" % (tt, pp), harness_pre=("  __CPROVER_assume(%s);" % extra_pre) if extra_pre else "")
     return t
 
+def mixed_tasks(tier):
+    """Checked::assign / assign_ext between two different native integer types"""
+    pairs = [("s8", "s64"), ("s64", "u64"), ("u8", "s8"), ("s8", "u8"), ("u64", "s64"), ("s32", "s64")] if tier == "quick" else \
+            [(a, b) for a in ("s8", "s16", "s32", "s64", "u8", "u16", "u32", "u64") for b in ("s8", "s16", "s32", "s64", "u8", "u16", "u32", "u64") if a != b]
+    pols = ["wrd"] if tier == "quick" else ["wrd", "cop"]
+    units = []; T = []
+    for pp in pols:
+        for (tt, ff) in pairs:
+            (tc, tw, ts), (fc, fw, fs) = TYPES[tt], TYPES[ff]
+            u = Unit("C11", "mix_%s_from_%s_%s" % (tt, ff, pp), "units/C11/assign_mixed.cc",
+                     defs={"VT": tc, "VF": fc, "VP": POLICIES[pp], "T_W": tw, "T_SIGNED": ts, "F_W": fw, "F_SIGNED": fs}, roots="re:^(w_|ENC_|POL_)", stubs=["common.c"])
+            units.append(u)
+            for ext in ((False, True) if pp == "wrd" else (False,)):
+                name = "assign_mixed" + ("_ext" if ext else "")
+                vars = [Var("uint%d_t" % tw, "to", snapshot=True), Var("uint%d_t" % fw, "x"), Var("uint32_t", "dir")]
+                native = {"decl": XSTR + "extern uint32_t real_fn(T_u*, const F_u*, uint32_t) __asm__(XSTR(FN_%s));" % name,
+                          "pre": "PRE(dir, dir_valid(dir))" + ("" if ext else " PRE(operand_finite, f_in_range(x))"),
+                          "call": "uint32_t r = real_fn(&to, &x, dir)", "post": "C_assign_mixed_POSTS(r, to, to_old, x, dir)",
+                          "show": 'printf("  returned Result code r=0x%x\\n", (unsigned)r);'}
+                T.append(Task("%s<-%s/%s/%s/sem" % (tt, ff, pp, name), u, "FN_" + name, ["C11/assign_mixed.h"], vars, "uint32_t r = FN_%s(&to, &x, dir)" % name,
+                              native=native, group="%s<-%s %s" % (tt, ff, pp), timeout=900,
+                              reach=[("representable", "r == 1u")] + ([("not representable", "r != 1u")] if (fw > tw or (fw == tw and fs != ts) or (fs and not ts)) else [])))
+    return units, T
+
 def build(tier):
     units = []; tasks = []
     if tier == "quick":
@@ -111,6 +135,7 @@ def build(tier):
                 tasks.append(op_task(u, tt, pp, op, ar, ext))
         for (op, ar, ext) in PREDS:
             tasks.append(op_task(u, tt, pp, op, ar, ext))
+    mu, mt = mixed_tasks(tier); units += mu; tasks += mt
     return units, tasks
 
 def main(tier, only=None):
